@@ -43,7 +43,7 @@ def run(ctx, res):
     res.guard(RR.rule_consume, prog, res, "video_sink_thread", "append")
     res.guard(RR.rule_consume, prog, res, "process_data", "iterate")
     res.guard(RR.rule_drain_after_stop, prog, res, "video_sink_thread", {"storage_append"})
-    res.guard(RR.rule_drain_after_stop, prog, res, "video_filter_thread", {"process_data"})
+    res.guard(RR.rule_drain_after_stop, prog, res, "video_filter_thread", {"process_data"}, passes=2)
     # a failed / not yet filled reservation of the source is never published by the filter
     from .c10 import commit_own
     res.guard(commit_own, prog, res, prog.func("process_data"), "R-COMMIT-OWN")
